@@ -116,7 +116,7 @@ class C10(BaseCheck):
              'scales.timer_queue:TimerQueue.Schedule')
   REQUIRED_ANCHORS = ANCHORS
   REQUIRED_CLASSES = ('new-head-while-sleeping', 'past-deadline', 'tie', 'cancel-head',
-                      'boundary', 'far-deadlines', 'deadline-exactly-on-tick')
+                      'boundary', 'far-deadlines', 'deadline-exactly-on-tick', 'action-raises', 'action-blocks')
   ASSUMPTIONS = ('virtual clock: no timer lateness is injected (J=0), so lateness bounds are exact',
                  'rounded deadline computed in exact rationals; actions within 2us of a grid '
                  'point are exempt from the ordering clause only')
@@ -197,9 +197,22 @@ class C10(BaseCheck):
       g = math.ceil(env.now / reff) * reff
       env.run_until(g)
 
+    misbehave = rng.random() < 0.3     # in these cases some actions raise or block after starting
+
+    class ActionBoom(Exception):
+      pass
+
     def make_action(a):
+      how = rng.choice(['raise', 'block', None, None]) if misbehave else None
+
       def act():
         a['runs'].append((env.now, env.emit('timer.run', aid=a['id'])['seq']))
+        if how == 'raise':
+          races.add('action-raises')
+          raise ActionBoom('action %d' % a['id'])
+        if how == 'block':
+          races.add('action-blocks')
+          gevent.sleep(rng.choice([0.3, 2.0]) * reff * 10)
       return act
 
     def head_deadline():
@@ -287,6 +300,8 @@ class C10(BaseCheck):
     crit = [l for l in env.logs if 'seq != peeked_seq' in l[2]]
     judge(actions, end_vt, res, out)
     for e in env.errors:
+      if e['type'] == 'ActionBoom':
+        continue       # an action's own exception, raised on purpose: it concerns nobody else
       out.violate('greenlet-error', 'unhandled exception in timer queue greenlet: %s: %s' % (
         e['type'], e['value']), {'res': res}, e)
     nrun = sum(1 for a in actions if a['runs'])
